@@ -1,7 +1,7 @@
 import P2sh.Core.Fn.Encode
 import P2sh.Core.Checked
 import P2sh.Driver.Sexp
-/-! Driver for the `core` op on programs with first-order functions (`Core/Fn`): the functional
+/-! Driver for the `core` op on programs with functions and closures (`Core/Fn`): the functional
 compiler (main code, line table, constant pool with the function constants), the machine with
 frames and the reference evaluation, compared with the real compiler and VM. -/
 namespace P2sh.Driver.CoreFnDrv
@@ -29,7 +29,7 @@ def runLim (K : List Val) (F : FnDef → Option (List Instr)) : Nat → FSt → 
     | none => .stuck s
 
 def run (p : Program) : String :=
-  match ofTops 400 ⟨0, 0, ⟨[], false, []⟩⟩ 0 p.stmts with
+  match ofTops 400 ⟨0, [], []⟩ 0 p.stmts with
   | none => result "MODEL-SKIP" "any"       -- outside the fragment
   | some (T, rs, _) =>
     if !(fdsDistinct T) then result "MODEL-SKIP" "any" else
@@ -44,7 +44,8 @@ def run (p : Program) : String :=
     let poolS := joinWith "|" (pool.map encConst)
     let g0 : List Val := List.replicate rs.ng .null
     let gsS (g : List Val) : String := joinWith "," (g.map encVal)
-    let model := match runLim pool (codeT T) 400000 ⟨⟨code, ⟨[], [], 0, 0, 0⟩, 0, 0⟩, [], g0, []⟩ with
+    -- the main program runs as a closure without captured values (`VM::new`): closure object 0
+    let model := match runLim pool (codeT T) 400000 ⟨⟨code, ⟨[], [], 0, 0, 0⟩, 0, 0, 0⟩, [], g0, [[]], []⟩ with
       | .done st => s!"code={codeS} lines={linesS} consts=[{poolS}] ok g=[{gsS st.g}] last=* sp={st.stk.length}"
       | .stuck st =>
         -- a runtime error reports `lines[ip]` of the running frame's instructions
@@ -53,8 +54,8 @@ def run (p : Program) : String :=
       | .oof => s!"code={codeS} lines={linesS} consts=[{poolS}] oof"
       | .limit => "MODEL-SKIP"
     -- the reference evaluation (specification): the final globals, or a runtime error
-    let spec := match evalT (phiT T) 20000 g0 T with
-      | some g => s!"m code=* lines=* consts=* ok g=[{gsS g}] last=* sp=0"
+    let spec := match evalT (phiT T) 20000 g0 [[]] T with
+      | some (g, _) => s!"m code=* lines=* consts=* ok g=[{gsS g}] last=* sp=0"
       | none => "m code=* lines=* consts=* rterr *"
     if model == "MODEL-SKIP" then result "MODEL-SKIP" "any" else result model spec
 
